@@ -27,6 +27,7 @@ type Engine struct {
 	specByKey map[string]*FuncSpec // "<pkgpath>.<Name>"
 	externs   map[string]*ExternSpec
 	privCache map[*ssa.Function]*privInfo
+	ctorCache map[*ssa.Function]bool
 	specFuncs map[string]*SpecFunc
 	lemmas    []*LemmaSpec
 	files     []*ContractFile
